@@ -90,7 +90,8 @@ FirstRep ==
 \* while self._keep_going(params, results, rep) and rep < rep_max
 Test ==
   /\ phase = "test"
-  /\ tests' = Append(tests, <<v, rep, skips>>)
+  \* the predicate is handed the MERGED results of the variation so far (attempts merged, ascending)
+  /\ tests' = Append(tests, <<v, rep, skips, AscSeq(merged)>>)
   /\ phase' = IF KG(Plan, rep, skips) /\ (IF Dev.GuardLE THEN rep <= rmax ELSE rep < rmax)
                 THEN "body" ELSE "end"
   /\ UNCHANGED <<cfg, v, rep, att, skips, merged, calls, runned, stored, nsim, rmax>>
